@@ -268,7 +268,18 @@ class SymArray:
             return
         if self.ndim == 2:
             if isinstance(i, slice):
-                for row in self.d[i]:
+                rows = self.d[i]
+                if isinstance(v, SymArray) and v.ndim == 2:
+                    if len(v.d) != len(rows):
+                        if len(v.d) == 1:
+                            for row in rows:
+                                row[:] = v.d[0]
+                            return
+                        raise ValueError(f"could not broadcast input array from shape {v.shape} into shape ({len(rows)}, {self._ncols})")
+                    for row, src in zip(rows, v.d):
+                        row[:] = src
+                    return
+                for row in rows:
                     row[:] = v
                 return
             self.d[int(i)][:] = v
